@@ -67,6 +67,16 @@ enum FirstTwoCombos {
     Both,
 }
 
+impl FirstTwoCombos {
+    const fn n_hits(self) -> usize {
+        match self {
+            Self::None => 0,
+            Self::OnlyFirst | Self::OnlySecond => 1,
+            Self::Both => 2,
+        }
+    }
+}
+
 impl TaikoGradualDifficulty {
     /// Create a new difficulty attributes iterator for osu!taiko maps.
     pub fn new(difficulty: Difficulty, map: &Beatmap) -> Result<Self, ConvertError> {
@@ -149,9 +159,9 @@ impl Iterator for TaikoGradualDifficulty {
     fn next(&mut self) -> Option<Self::Item> {
         // The first difficulty object belongs to the third note since each
         // difficulty object requires the current, the last, and the second to
-        // last note. Hence, if we're still on the first or second object, we
-        // don't have a difficulty object yet and just skip processing.
-        if self.idx >= 2 {
+        // last note. Hence, a hit among the first two objects has no difficulty
+        // object to process and only adds to the combo.
+        if self.idx >= self.first_combos.n_hits() {
             loop {
                 let curr = self.diff_objects_iter.next()?;
                 let borrowed = curr.get();
@@ -170,16 +180,8 @@ impl Iterator for TaikoGradualDifficulty {
                     break;
                 }
             }
-        } else if self.diff_objects.is_empty() {
-            return None;
         } else {
-            match self.first_combos {
-                FirstTwoCombos::OnlyFirst => self.attrs.max_combo = 1,
-                FirstTwoCombos::OnlySecond if self.idx == 1 => self.attrs.max_combo = 1,
-                FirstTwoCombos::Both if self.idx == 0 => self.attrs.max_combo = 1,
-                FirstTwoCombos::Both if self.idx == 1 => self.attrs.max_combo = 2,
-                _ => {}
-            }
+            self.attrs.max_combo += 1;
         }
 
         self.idx += 1;
@@ -201,42 +203,11 @@ impl Iterator for TaikoGradualDifficulty {
     fn nth(&mut self, n: usize) -> Option<Self::Item> {
         let mut take = cmp::min(n, self.len().saturating_sub(1));
 
-        // The first two notes have no difficulty object but might add to combo
-        match (take, self.idx) {
-            (_, 2..) | (0, _) => {}
-            (1, 0) => {
-                take -= 1;
-                self.idx += 1;
-
-                match self.first_combos {
-                    FirstTwoCombos::None => {}
-                    FirstTwoCombos::OnlyFirst => self.attrs.max_combo = 1,
-                    FirstTwoCombos::OnlySecond => {}
-                    FirstTwoCombos::Both => self.attrs.max_combo = 1,
-                }
-            }
-            (_, 0) => {
-                take -= 2;
-                self.idx += 2;
-
-                match self.first_combos {
-                    FirstTwoCombos::None => {}
-                    FirstTwoCombos::OnlyFirst => self.attrs.max_combo = 1,
-                    FirstTwoCombos::OnlySecond => self.attrs.max_combo = 1,
-                    FirstTwoCombos::Both => self.attrs.max_combo = 2,
-                }
-            }
-            (_, 1) => {
-                take -= 1;
-                self.idx += 1;
-
-                match self.first_combos {
-                    FirstTwoCombos::None => {}
-                    FirstTwoCombos::OnlyFirst => self.attrs.max_combo = 1,
-                    FirstTwoCombos::OnlySecond => self.attrs.max_combo = 1,
-                    FirstTwoCombos::Both => self.attrs.max_combo = 2,
-                }
-            }
+        // Hits among the first two objects have no difficulty object
+        while take > 0 && self.idx < self.first_combos.n_hits() {
+            take -= 1;
+            self.idx += 1;
+            self.attrs.max_combo += 1;
         }
 
         for _ in 0..take {
